@@ -81,7 +81,7 @@ func (w *World) resolveStables() {
 				d.mapT = mt
 				ks := scalarSort(mt.Key())
 				d.fams[mapDomFam(mt)] = ArrSort(SInt, ArrSort(ks, SBool))
-				for _, c := range comps(mt.Elem()) {
+				for _, c := range mapComps(mt.Elem()) {
 					d.fams[mapValFam(mt)+c[0]] = ArrSort(SInt, ArrSort(ks, c[1]))
 				}
 				continue
